@@ -50,8 +50,9 @@ class Ctx:
             tagh = hashlib.sha1(self.repo.encode()).hexdigest()[:8]
             self.harness_dir = os.path.join(VERIF, "work", "alt-harness-" + tagh)
         self.t0 = time.time()
+        _alt = os.environ.get("VERIF_REPO", "/repo").rstrip("/")
         self.work = os.path.join(VERIF, "work", "%s-%s%s" % (pid, tier,
-                                 "" if os.environ.get("VERIF_REPO", "/repo").rstrip("/") in ("", "/repo") else "-alt"))
+                                 "" if _alt in ("", "/repo") else "-alt-" + hashlib.sha1(_alt.encode()).hexdigest()[:8]))
         shutil.rmtree(self.work, ignore_errors=True)
         os.makedirs(self.work, exist_ok=True)
         self.replay_dir = os.path.join(VERIF, "replays", pid)
